@@ -307,7 +307,88 @@ fn check_pair(sub: &str, l: &J, lt: &str, r: &J, rt: &str, st: &mut Stats) -> Ca
             other => return Err(Failure::new(sub, "comparison-failed", other.brief(), case)),
         }
     }
+    // the operands handed in as Rust integers of every width that holds them (round 17)
+    if let (J::Num(N::Int(a)), J::Num(N::Int(b))) = (l, r) {
+        let expr = build_expr("l", "r");
+        for width in 0..8usize {
+            if let Some(out) = search_typed_ints(&expr, *a, *b, width) {
+                st.eval();
+                let case = json!({"l": lt, "r": rt, "route": "typed-integers", "width": width, "expression": expr});
+                match out {
+                    ImpOut::Ok(g) => {
+                        if !g.deep_eq(&want) {
+                            return Err(Failure::new(sub, "typed-operands-compare-differently", format!("gave {} expected {} (operands as Rust integers, width choice {})", g.to_json(), want.to_json(), width), case));
+                        }
+                    }
+                    other => return Err(Failure::new(sub, "comparison-failed", other.brief(), case)),
+                }
+            }
+        }
+    }
     Ok(())
+}
+
+/// An integer serialised through the `serialize_*` call of one Rust integer type.
+struct TypedInt(i128, usize);
+
+impl serde::Serialize for TypedInt {
+    fn serialize<S: serde::Serializer>(&self, s: S) -> Result<S::Ok, S::Error> {
+        let v = self.0;
+        match self.1 {
+            0 => s.serialize_i8(v as i8),
+            1 => s.serialize_i16(v as i16),
+            2 => s.serialize_i32(v as i32),
+            3 => s.serialize_i64(v as i64),
+            4 => s.serialize_u8(v as u8),
+            5 => s.serialize_u16(v as u16),
+            6 => s.serialize_u32(v as u32),
+            _ => s.serialize_u64(v as u64),
+        }
+    }
+}
+
+fn fits(v: i128, ty: usize) -> bool {
+    let (lo, hi): (i128, i128) = match ty {
+        0 => (i8::MIN as i128, i8::MAX as i128),
+        1 => (i16::MIN as i128, i16::MAX as i128),
+        2 => (i32::MIN as i128, i32::MAX as i128),
+        3 => (i64::MIN as i128, i64::MAX as i128),
+        4 => (0, u8::MAX as i128),
+        5 => (0, u16::MAX as i128),
+        6 => (0, u32::MAX as i128),
+        _ => (0, u64::MAX as i128),
+    };
+    v >= lo && v <= hi
+}
+
+/// `{l, r}` as a Rust map of typed integers: the left operand through type `ty`, the right one
+/// through the first type from `ty` onwards that holds it. None when `ty` does not hold `l`.
+fn search_typed_ints(expr: &str, l: i128, r: i128, ty: usize) -> Option<ImpOut> {
+    if !fits(l, ty) {
+        return None;
+    }
+    let rty = (0..8).map(|k| (ty + k) % 8).find(|t| fits(r, *t))?;
+    let r = catch(std::panic::AssertUnwindSafe(|| {
+        let e = match jmespath::compile(expr) {
+            Ok(e) => e,
+            Err(err) => return ImpOut::CompileErr(crate::imp::classify(&err)),
+        };
+        let mut m = std::collections::BTreeMap::new();
+        m.insert("l", TypedInt(l, ty));
+        m.insert("r", TypedInt(r, rty));
+        let v = match jmespath::Variable::from_serializable(&m) {
+            Ok(v) => v,
+            Err(err) => return ImpOut::BadDoc(err.to_string()),
+        };
+        match e.search(v) {
+            Ok(r) => ImpOut::Ok(crate::shape::var_to_j(&r)),
+            Err(err) => ImpOut::SearchErr(crate::imp::classify(&err)),
+        }
+    }));
+    Some(match r {
+        Ok(o) => o,
+        Err(p) => ImpOut::Panic(p),
+    })
 }
 
 /// Containers built by the expression itself around the two operands (multi-select
